@@ -24,6 +24,9 @@
 -/
 import ClairModel.Proofs.JoinAll
 
+-- every variable of a property statement is bound explicitly: a misspelt name is an error, not a new variable
+set_option autoImplicit false
+
 namespace ClairModel.Props.C04
 open ClairModel ClairModel.Join ClairModel.Gen
 
